@@ -398,6 +398,29 @@ class Explorer:
             except Exception:
                 pass
 
+    def settle(self, world, ev, jk, before, prs):
+        """After the recovery of an interrupted branch admin job, with pull requests waiting in the queue: let the
+        queue be evaluated once with every queue build green (through the documented reset if it is reported out of
+        order) and look at the remote again - a pull request must not end up on some of its targets only because the
+        interrupted job left the queues behind the cascade."""
+        if not jk.startswith('job_api:') or jk.split(':')[1] not in ('create_branch', 'delete_branch') \
+                or not world.cfg['use_queue']:
+            return []
+        q = sorted(n for n in world.refs() if n.startswith('q/w/'))
+        if not q:
+            return []
+        for n in q:
+            world.apply({'e': 'build', 'ref': n, 'state': 'SUCCESSFUL'})
+        self.count('settle_after_admin_recovery')
+        path, st, _trees = self.recover(world, {'e': 'job_commit', 'sha': world.refs()[q[-1]]})
+        self.count('settle_status:%s' % st)
+        out = []
+        # the pull requests to look at: those open before the job (a queue merge lands them)
+        for v in M.state_violations(world, before, world.refs(), prs):
+            v = dict(v, what=v['what'] + ' after the queue was evaluated following the recovery', settle_status=st)
+            out.append(v)
+        return out
+
     def explore(self, world, ev, before):
         jk = job_kind(ev)
         if ev['e'] == 'job_commit' and not ev.get('sha'):
@@ -565,6 +588,7 @@ class Explorer:
             path, st, trees_r = self.recover(world, ev)
             # the remote is observable after the recovery as well
             viol_r = M.state_violations(world, before, world.refs(), prs)
+            viol_r += self.settle(world, ev, jk, before, prs)
             cache[skey] = (path, st, trees_r, viol_r)
         for v in viol_r:
             key = '%s-after-recovery|%s|%s|%s' % (v['what'], jk, mode, opk)
@@ -622,6 +646,11 @@ class Explorer:
 
 
 # ------------------------------------------------------------------------------------- history families
+def histories_dev_key(n):
+    v = n.split('/', 1)[1].split('.')
+    return (int(v[0]), int(v[1]) if len(v) > 1 else None)
+
+
 def scripted_and_run(seed, fault_for=None, on_job=None):
     """Short histories that reach Queued and Merged quickly: one or two pull requests driven straight through
     evaluation, green builds, queueing (or the direct merge) and the queue merge; layout / mode / strategy and
@@ -660,6 +689,13 @@ def scripted_and_run(seed, fault_for=None, on_job=None):
             for nme in gen.tips_of(p, world.refs()):
                 do({'e': 'build', 'ref': nme, 'state': 'SUCCESSFUL'})
             do({'e': 'job_pr', 'pr': p['id']})
+        if mode != 'noqueue' and seed % 4 == 0 and any(x.startswith('q/w/') for x in world.refs()):
+            # a branch admin job while pull requests wait in the queue: a new newest development branch, or a
+            # stabilization branch of the newest line (both make the queues lag behind the cascade until rebuilt)
+            devs = sorted((histories_dev_key(d), d) for d in dests if d.startswith('development/'))
+            major = devs[-1][0][0]
+            do({'e': 'job_api', 'kind': 'create_branch', 'args': {'branch': rng.choice(
+                ['development/%d.0' % (major + 1), 'development/%d.%d' % (major, (devs[-1][0][1] or 0) + 1)])}})
         for _round in range(2):
             q = sorted(x for x in world.refs() if x.startswith('q/w/'))
             if not q:
